@@ -485,22 +485,40 @@ func (serviceCore *ServiceCore) FilterDatasets(
 	result := make([]server.DatasetName, 0)
 
 	for _, dataset := range datasets {
-		for _, ac := range acl {
-			if serviceCore.CheckGranted(ac, "/datasets/"+dataset.Name, "read") {
-				result = append(result, dataset)
-			}
+		if serviceCore.IsGranted(acl, "/datasets/"+dataset.Name, "read") {
+			result = append(result, dataset)
 		}
 	}
 
 	return result, nil
 }
 
+// IsGranted reports whether the given access controls allow action on resource:
+// at least one entry grants it and no matching entry denies it.
+func (serviceCore *ServiceCore) IsGranted(acl []*AccessControl, resource string, action string) bool {
+	granted := false
+	for _, ac := range acl {
+		if serviceCore.checkMatches(ac, resource, action) {
+			if ac.Deny {
+				return false
+			}
+			granted = true
+		}
+	}
+	return granted
+}
+
 func (serviceCore *ServiceCore) CheckGranted(ac *AccessControl, resource string, action string) bool {
+	return serviceCore.checkMatches(ac, resource, action) && !ac.Deny
+}
+
+// checkMatches reports whether the access control applies to the resource and action, regardless of its Deny flag
+func (serviceCore *ServiceCore) checkMatches(ac *AccessControl, resource string, action string) bool {
 	if ac.Resource == resource {
 		if action == "read" && (ac.Action == "read" || ac.Action == "write") {
-			return !ac.Deny
+			return true
 		} else if action == ac.Action {
-			return !ac.Deny
+			return true
 		}
 	}
 
@@ -510,9 +528,9 @@ func (serviceCore *ServiceCore) CheckGranted(ac *AccessControl, resource string,
 		pattern := ac.Resource[:len(ac.Resource)-1]
 		if strings.HasPrefix(resource, pattern) {
 			if action == "read" && (ac.Action == "read" || ac.Action == "write") {
-				return !ac.Deny
+				return true
 			} else if action == ac.Action {
-				return !ac.Deny
+				return true
 			}
 		}
 	}
